@@ -839,6 +839,35 @@ func c15Tables(c *Ctx, r *Report, rule string) {
 						problems = append(problems, "the configuration adapts but does not provision ("+fails+")")
 					default:
 						provNote = "; provisions"
+						// caddy runs Validate (where the module has one) on what Provision left: it must accept it too
+						if val := methodOf(c, fn.Signature.Recv().Type(), "Validate"); val != nil && len(val.Blocks) > 0 && len(ppaths) == 1 {
+							vsc := &Scenario{Name: "validate after " + key, MaxVisit: 40, MaxPaths: 400, ConcreteCopy: true, FreshBase: 800000,
+								Params: map[string]SV{"recv": symRef("m", false)},
+								Heap:   map[string]SV{},
+							}
+							vsc.Inline = pbase.Inline
+							for k, v := range ppaths[0].Heap {
+								vsc.Heap[k] = v
+							}
+							vsc.Call = psc.Call
+							vpaths, verr := evalPaths(val, vsc)
+							vdecided, vfails := verr == nil && len(vpaths) > 0, ""
+							for _, vp := range vpaths {
+								if vp.Outcome != "return" || len(vp.Ret) != 1 || !vp.Ret[0].Known {
+									vdecided = false
+								} else if !vp.Ret[0].Nil {
+									vfails = vp.Ret[0].Desc
+								}
+							}
+							switch {
+							case !vdecided:
+								provNote += "; validation not evaluated"
+							case vfails != "" && len(vpaths) == 1:
+								problems = append(problems, "the configuration adapts and provisions but does not validate ("+vfails+")")
+							default:
+								provNote += "; validates"
+							}
+						}
 					}
 				}
 			}
